@@ -225,7 +225,9 @@ def run_hc(case):
     total = None
     addrs = None
     site = None
-    signal.alarm(opts.get("timeout", 60))
+    # a live-range set of at most 40 ranges needs milliseconds with <= 700 iterations; a search that spins (seen with seeded changes of
+    # the termination test) is cut after 15 s instead of 60 s so that a broken tree still gets its verdict within the time limit
+    signal.alarm(opts.get("timeout", 60 if len(ranges) > 40 else 15))
     try:
         if opts.get("via_allocate"):
             class Arch:
